@@ -79,10 +79,30 @@ Qed.
 Lemma next_key_pkce_token cfg s cl key v vh : next_key (fst (pkce_token cfg s cl key v vh)) = next_key s.
 Proof. destruct (pkce_token_state cfg s cl key v vh) as [->|[k ->]]; reflexivity. Qed.
 
+Lemma decay_fresh_grant s mk w : decay (next_key s) (st s) (st (fst (fresh_grant s mk w))).
+Proof.
+  unfold fresh_grant. destruct (fresh_rid s) as [rid s1] eqn:E1.
+  destruct (fresh_rid_spec _ _ _ E1) as [_ [_ [Hst [_ [Hk _]]]]].
+  rewrite <- Hst, <- Hk. apply decay_grant_tokens.
+Qed.
+Lemma fresh_grant_next_key s mk w : next_key s <= next_key (fst (fresh_grant s mk w)).
+Proof.
+  unfold fresh_grant. destruct (fresh_rid s) as [rid s1] eqn:E1.
+  destruct (fresh_rid_spec _ _ _ E1) as [_ [_ [_ [_ [Hk _]]]]].
+  unfold grant_tokens, mint. destruct w; cbn; lia.
+Qed.
+Lemma fresh_grant_log s mk w : exists l, log (fst (fresh_grant s mk w)) = (log s ++ l)%list.
+Proof.
+  unfold fresh_grant. destruct (fresh_rid s) as [rid s1] eqn:E1.
+  destruct (fresh_rid_spec _ _ _ E1) as [_ [_ [_ [_ [_ [_ Hl]]]]]].
+  unfold grant_tokens, mint. destruct w; cbn; rewrite Hl; eauto.
+Qed.
+
 Theorem decay_step cfg s o : decay (next_key s) (st s) (st (fst (step cfg s o))).
 Proof.
   set (K := next_key s).
-  destruct o; cbn [step]; try apply decay_refl.
+  destruct o; cbn [step]; try apply decay_refl;
+    try (new_flows_tac s decay_fresh_grant ltac:(apply decay_refl); exact FGfact).
   - unfold authorize.
     destruct (clients s (az_client a)) as [cl|]; [|apply decay_refl].
     destruct (negb (scopes_ok cfg cl (az_scopes a))); [apply decay_refl|].
@@ -141,7 +161,8 @@ Qed.
 
 Lemma next_key_step cfg s o : next_key s <= next_key (fst (step cfg s o)).
 Proof.
-  destruct o; cbn [step]; try (cbn; lia).
+  destruct o; cbn [step]; try (cbn; lia);
+    try (new_flows_tac s fresh_grant_next_key ltac:(cbn; lia); exact FGfact).
   - unfold authorize.
     destruct (clients s (az_client a)) as [cl|]; [|cbn; lia].
     destruct (negb (scopes_ok cfg cl (az_scopes a))); [cbn; lia|].
